@@ -242,3 +242,76 @@ pub fn run(tr: &Tracer, tables: &Tables, id: usize, b: &Behaviour) {
         w.handle.join().ok();
     }
 }
+
+
+// ------------------------------------------------------------------------------------------ timed routes
+
+/// `timed <out>`: the observation routes whose magnitude is a measured duration (Event::observe_duration_millis,
+/// Event::batch(n).observe_duration_millis, observe_millis with a known duration, each alone and batched), on a fresh
+/// pull and a fresh push event with ONE bucket bound far above anything measured here.  The magnitude is unknown, the
+/// number of observations each call stands for is not.  One record per (kind, route).
+pub fn timed(out: &str) {
+    let tr = vrt::Tracer::create(out);
+    static BOUNDS: [Magnitude; 1] = [3_600_000];
+    for push in [false, true] {
+        for route in 0..4 {
+            let name = fresh_names(1).remove(0);
+            let name2 = name.clone();
+            let r = vrt::catch(move || {
+                let pusher = MetricsPusher::new();
+                let calls: [usize; 4] = [1, 3, 5, 2];
+                let mut n = 0usize;
+                macro_rules! drive {
+                    ($ev:expr) => {{
+                        let ev = $ev;
+                        for k in calls {
+                            match route {
+                                0 => ev.batch(k).observe_duration_millis(|| ()),
+                                1 => {
+                                    for _ in 0..k {
+                                        ev.observe_duration_millis(|| ());
+                                    }
+                                }
+                                2 => ev.batch(k).observe_millis(std::time::Duration::from_millis(7)),
+                                _ => {
+                                    for _ in 0..k {
+                                        ev.observe_millis(std::time::Duration::from_millis(7));
+                                    }
+                                }
+                            }
+                            n += k;
+                        }
+                    }};
+                }
+                if push {
+                    let ev: Event<Push> = Event::builder().name(name2.clone()).histogram(&BOUNDS).pusher(&pusher).build();
+                    drive!(&ev);
+                    pusher.push();
+                } else {
+                    let ev: Event<Pull> = Event::builder().name(name2.clone()).histogram(&BOUNDS).build();
+                    drive!(&ev);
+                }
+                n
+            });
+            let rep = collect(&[name.clone()]);
+            let e = &rep[0];
+            let (mut b1, mut inf) = (0u64, 0u64);
+            if let Some(bs) = e["b"].as_array() {
+                for b in bs {
+                    match b[0].as_u64() {
+                        Some(1) => b1 = b[1].as_u64().unwrap_or(0),
+                        _ => inf += b[1].as_u64().unwrap_or(0),
+                    }
+                }
+            }
+            // limbs: most significant first? the sign lives in the top limb: negative iff top bit of limb 0 .. use the report directly
+            let neg = match vrt::catch(|| Report::collect()) {
+                Ok(r) => r.events().find(|x| x.name().as_ref() == name.as_str()).map(|x| x.sum() < 0).unwrap_or(false),
+                Err(_) => false,
+            };
+            tr.emit(&json!({"ev":"timed","kind": if push {"push"} else {"pull"},"route":route,"n": r.clone().unwrap_or(0),
+                            "c": e["c"], "b1": b1, "inf": inf, "neg": u8::from(neg), "panic": r.err().unwrap_or_default()}));
+        }
+    }
+    tr.flush();
+}
